@@ -106,6 +106,10 @@ func (g *opGen) elem(f *vschema.Field) *vval.Val {
 	if f.IsMsg {
 		return g.message(f.Msg)
 	}
+	if f.Kind == vschema.Bytes && g.r.Chance(35) {
+		// the two empty bytes values: nil (what NewElement / NewValue hand out) and allocated-empty
+		return vval.VBlob(g.r.Bool(), nil)
+	}
 	return g.scalar(f.Kind)
 }
 
